@@ -1,4 +1,393 @@
-import GeomV.C10.Model
-import GeomV.C10.Spec
+import GeomV.C10.Lemmas
+import GeomV.C10.LemmasT
+/-!
+# C10 — property theorems
+
+Part 1, `Geom.Transform` (model `GeomTransform.lean` of /repo/transform.go, specification `Spec.lean`):
+* `C10_structure`       the result has the same type and nesting and its i-th vertex is `t` of the i-th
+                        input vertex (`*Bounds` ↦ its 4-vertex ring as a polygon); first failure wins.
+* `C10_map_vertices`    `g.Transform(t) = mapVertices t g` (the structural map), errors lifted.
+* `C10_vertex_i`        index form of "i-th vertex".
+* `C10_nil_identity`    a nil transformer is the identity.
+* `C10_error_no_panic`  if `t` fails first on vertex `i`, every type returns exactly that error; never a panic.
+* `C10_input_unchanged` see below.
+Part 2, transformers (model `Transformer.lean` of proj/transform.go + adjust_axis.go):
+* `C10_pure`            history independence over any pool of transformers sharing SRs.
+* `C10_step_state_eq`   a call leaves a settled heap and the captured pair unchanged.
+* `C10_no_index_fault`  `adjust_axis` never indexes past a 2-vector for any legal axis string.
+No bound on geometry size, nesting depth, history length, pool size.
+-/
+set_option linter.unusedSimpArgs false
+set_option linter.unusedVariables false
+set_option linter.unusedSectionVars false
 namespace GeomV.C10
+open GeomV GeomV.C10.Spec
+
+section GeomTransform
+variable {E α : Type}
+
+/-- what an observer of the model's `Transform` sees -/
+def toOutcome : Except (Fail E) (Geom α) → Outcome E (Geom α)
+  | .ok g => .ok g
+  | .error (.err e) => .err e
+  | .error (.panic _) => .panic
+
+/-- **C10_map_vertices** (clause "same type and nesting, i-th vertex is the transformer applied to the
+i-th input vertex", as an equation): for a non-nil transformer the model of `g.Transform(t)` is the
+structural map `mapVertices t g` with the transformer's error passed through. -/
+theorem C10_map_vertices (t : TF E α) (g : Geom α) (h : noNil g = true) :
+    transform (some t) g = lift (mapVertices t g) := by
+  have := transformS_eq t g h
+  cases g <;> simp_all [transform, noNil]
+
+/-- **C10_structure** (the whole `Geom.Transform` sentence of the property, as `Spec.TransformSpec`):
+for every geometry without nil members, every transformer or nil: nil ↦ the input itself; if some
+vertex fails the error of the first failing vertex is returned; otherwise the result has the shape of
+the input (`*Bounds` as its ring polygon) and its vertex list is the image of the input's. -/
+theorem C10_structure (t : Option (TF E α)) (g : Geom α) (h : noNil g = true) :
+    TransformSpec t g (toOutcome (transform t g)) := by
+  cases t with
+  | none => cases g <;> simp_all [TransformSpec, transform, toOutcome, noNil]
+  | some t =>
+    rw [C10_map_vertices t g h]
+    simp only [TransformSpec]
+    cases hm : mapVertices t g with
+    | error e => simp [mapVertices_err t g e hm, lift, toOutcome]
+    | ok g' =>
+      obtain ⟨h1, h2⟩ := mapVertices_ok t g g' hm
+      simp [h2, lift, toOutcome, h1]
+
+/-- **C10_vertex_i** (index form): if `g.Transform(t)` returns `g'` then for every `i` the i-th vertex
+of `g'` exists and is `t` applied to the i-th vertex of `g`; the vertex counts agree. -/
+theorem C10_vertex_i (t : TF E α) (g g' : Geom α) (h : noNil g = true)
+    (hr : transform (some t) g = .ok g') (i : Nat) (hi : i < (vertices g).length) :
+    ∃ v, (vertices g')[i]? = some v ∧ t (vertices g)[i] = .ok v := by
+  rw [C10_map_vertices t g h] at hr
+  cases hm : mapVertices t g with
+  | error e => simp [hm, lift] at hr
+  | ok g'' =>
+    simp [hm, lift] at hr; subst hr
+    exact mapAll_get t _ _ (mapVertices_ok t g g'' hm).2 i hi
+
+/-- **C10_nil_identity** (clause "treats a nil transformer as the identity"). -/
+theorem C10_nil_identity (g : Geom α) (h : g ≠ .nil) : transform (none : Option (TF E α)) g = .ok g := by
+  cases g <;> simp_all [transform]
+
+/-- **C10_error_no_panic** (clause "returns the transformer's error (never panics) if any vertex
+fails"): for all eight types, if the vertices before `v` succeed and `t v = error e` then
+`Transform` returns exactly `e`; and no input makes `Transform` panic. -/
+theorem C10_error_no_panic (t : TF E α) (g : Geom α) (h : noNil g = true) :
+    (∀ pre post v e, vertices g = pre ++ v :: post → (∀ p ∈ pre, ∃ q, t p = .ok q) → t v = .error e →
+        transform (some t) g = .error (.err e)) ∧
+    (∀ (t' : Option (TF E α)) f, transform t' g ≠ .error (.panic f)) := by
+  constructor
+  · intro pre post v e hv hpre hfail
+    rw [C10_map_vertices t g h]
+    have hm := mapAll_first_fail t pre post v e hpre hfail
+    rw [← hv] at hm
+    cases hmv : mapVertices t g with
+    | error e' => have := mapVertices_err t g e' hmv; rw [hm] at this; cases this; rfl
+    | ok g' => have := (mapVertices_ok t g g' hmv).2; rw [hm] at this; cases this
+  · intro t' f
+    cases t' with
+    | none => cases g <;> simp_all [transform, noNil]
+    | some t' =>
+      rw [C10_map_vertices t' g h]
+      cases mapVertices t' g <;> simp [lift]
+
+/-- What the fix 08034c4 repaired, on the model of the snapshot's loop: a failing member made
+`MultiLineString.Transform` panic instead of returning the error. -/
+theorem snapshot_multiLineString_panics (t : TF E α) (l : List (Pt α)) (ls : List (List (Pt α))) (e : E)
+    (h : mapAll t l = .error e) :
+    multiLineLoopSnapshot t (l :: ls) = .error (.panic .typeAssert) ∧
+    multiLineLoop t (l :: ls) = .error (.err e) := by
+  simp [multiLineLoopSnapshot, multiLineLoop, lineStringT, ptsT_eq, h, lift]
+
+end GeomTransform
+
+section Transformer
+variable {F P Err : Type} [FOps F]
+
+/-- **C10_pure** (clause "calling it any number of times, in any order, interleaved with other
+transformers built from the same spatial references, returns the same result for the same input as a
+freshly built transformer does").  For every choice of projection internals satisfying `CoreOK`, every
+initial heap `h0` of SR records, every pool of transformers over it (any sharing, the registry's WGS84
+cell `wgs` included) and every history of calls, the i-th answer of the history is the answer of a
+single call of that transformer on `h0`, i.e. of a freshly built transformer. -/
+theorem C10_pure (c : Core F P Err) (hc : CoreOK c) (wgs : Nat) (h0 : Heap F P) (pool : Nat → Tr)
+    (hist : List (Nat × F × F)) :
+    Spec.HistoryIndependent (runHist c wgs { heap := h0, pool := pool } hist).2
+      (hist.map fun q => (step c wgs h0 (pool q.1) q.2.1 q.2.2).2.2) :=
+  (rel_runHist c hc wgs h0 pool hist { heap := h0, pool := pool } (Rel.refl c h0) rfl).2.2
+
+/-- **C10_pure_last** (the same, in the form "after any history `h`, the answer for input `p`"). -/
+theorem C10_pure_last (c : Core F P Err) (hc : CoreOK c) (wgs : Nat) (h0 : Heap F P) (pool : Nat → Tr)
+    (hist : List (Nat × F × F)) (k : Nat) (x y : F) :
+    (runHist c wgs { heap := h0, pool := pool } (hist ++ [(k, x, y)])).2.getLast? =
+      some (step c wgs h0 (pool k) x y).2.2 := by
+  have := C10_pure c hc wgs h0 pool (hist ++ [(k, x, y)])
+  unfold Spec.HistoryIndependent at this
+  rw [this]; simp
+
+/-- **C10_pure_states** (history independence stated on states): in any two heaps reachable from `h0`
+by running constructors — in particular the heap left by ANY history of ANY transformers — the same
+transformer gives the same answer, and the heap it leaves is again of that kind. -/
+theorem C10_pure_states (c : Core F P Err) (hc : CoreOK c) (wgs : Nat) (h0 h h' : Heap F P)
+    (hr : Rel c h0 h) (hr' : Rel c h0 h') (tr : Tr) (x y : F) :
+    (step c wgs h tr x y).2.2 = (step c wgs h' tr x y).2.2 ∧ Rel c h0 (step c wgs h tr x y).1 := by
+  obtain ⟨a, _, b⟩ := rel_step c hc wgs h0 h hr tr x y
+  obtain ⟨_, _, b'⟩ := rel_step c hc wgs h0 h' hr' tr x y
+  exact ⟨b.trans b'.symm, a⟩
+
+/-- the heap a history leaves is reachable in the sense of `C10_pure_states`, and the pool (the
+captured source/dest of every transformer) is unchanged -/
+theorem C10_history_state (c : Core F P Err) (hc : CoreOK c) (wgs : Nat) (h0 : Heap F P) (pool : Nat → Tr)
+    (hist : List (Nat × F × F)) :
+    Rel c h0 (runHist c wgs { heap := h0, pool := pool } hist).1.heap ∧
+      (runHist c wgs { heap := h0, pool := pool } hist).1.pool = pool := by
+  obtain ⟨a, b, _⟩ := rel_runHist c hc wgs h0 pool hist { heap := h0, pool := pool } (Rel.refl c h0) rfl
+  exact ⟨a, b⟩
+
+/-- **C10_step_state_eq**: once the constructors of the cells a transformer touches have run
+(`Settled`: running them again writes nothing), a call leaves the whole state — heap and captured
+source/dest — exactly as it was. -/
+theorem C10_step_state_eq (c : Core F P Err) (wgs : Nat) (h : Heap F P) (tr : Tr) (x y : F)
+    (hs : Settled c h tr.src) (hd : Settled c h tr.dst) (hw : Settled c h wgs) :
+    (step c wgs h tr x y).1 = h ∧ (step c wgs h tr x y).2.1 = tr := by
+  unfold step
+  by_cases hh : needsHop h tr.src tr.dst = true
+  · simp only [hh, if_true]
+    by_cases hn : needsHop h tr.src wgs = true
+    · simp [hn]
+    · simp only [hn, Bool.false_eq_true, if_false]
+      have e1 := stepNoHop_settled c h tr.src wgs x y hs hw
+      cases hres : (stepNoHop c h tr.src wgs x y).2 with
+      | ok a b =>
+        simp only [e1]
+        exact ⟨stepNoHop_settled c h wgs tr.dst a b hw hd, trivial⟩
+      | err e => exact ⟨e1, rfl⟩
+      | panic f => exact ⟨e1, rfl⟩
+  · simp only [hh, Bool.false_eq_true, if_false]
+    exact ⟨stepNoHop_settled c h tr.src tr.dst x y hs hd, trivial⟩
+
+/-- after a constructor has run, its cell is settled (for `CoreOK` internals) -/
+theorem settled_after_init (c : Core F P Err) (hc : CoreOK c) (h : Heap F P) (i : Nat) :
+    Settled c (initAt c h i).1 i := by
+  simp [Settled, initAt_fst, Heap.set, inited, hc (h i).p]
+
+/-- What fix 788adbd repaired, on the model of the snapshot's closure: after one successful call
+through a datum-hop transformer its captured source is the WGS84 cell. -/
+theorem snapshot_source_overwritten (c : Core F P Err) (wgs : Nat) (h : Heap F P) (tr : Tr) (x y a b : F)
+    (hh : needsHop h tr.src tr.dst = true) (hn : needsHop h tr.src wgs = false)
+    (h1 : (stepNoHop c h tr.src wgs x y).2 = .ok a b) :
+    (stepSnapshot c wgs h tr x y).2.1.src = wgs ∧ (step c wgs h tr x y).2.1.src = tr.src := by
+  simp [stepSnapshot, step, hh, hn, h1]
+
+/-! ### adjust_axis -/
+
+theorem list_len2 {β : Type} (l : List β) (h : l.length = 2) : ∃ a b, l = [a, b] := by
+  match l, h with
+  | [a, b], _ => exact ⟨a, b, rfl⟩
+
+/-- **C10_no_index_fault**: for every axis string of three letters (what `projString` accepts, and
+the default `enu`) and every 2-D point, `adjust_axis` — in both directions — never indexes past the
+coordinate slice or the axis string; the closure's `point[0], point[1]` afterwards exist; and when the
+letters are legal (`ewnsud`) it returns no error either. -/
+theorem C10_no_index_fault (ae : Err) (axis : List Char) (denorm : Bool) (x y : F) (hl : axis.length = 3) :
+    (∀ f, adjustAxis ae axis denorm [x, y] ≠ .error (.panic f)) ∧
+    (∀ f, axisPart ae axis denorm x y ≠ .error (.panic f)) ∧
+    ((∀ ch ∈ axis, legalChar ch) → ∃ a b, axisPart ae axis denorm x y = .ok (a, b)) := by
+  have key : (∀ f, adjustAxis ae axis denorm [x, y] ≠ .error (.panic f)) ∧
+      (∀ pt, adjustAxis ae axis denorm [x, y] = .ok pt → pt.length = 2) ∧
+      ((∀ ch ∈ axis, legalChar ch) → ∃ pt, adjustAxis ae axis denorm [x, y] = .ok pt) := by
+    obtain ⟨n0, l0, g0⟩ := axisStep_two ae axis x y 0 (by omega) hl
+    cases h0 : axisStep ae axis [x, y] 0 with
+    | error e =>
+      refine ⟨?_, ?_, ?_⟩
+      · intro f hf; simp [adjustAxis, h0] at hf; subst hf; exact n0 f h0
+      · intro pt hpt; simp [adjustAxis, h0] at hpt
+      · intro hleg; obtain ⟨pt, hpt⟩ := g0 hleg; rw [h0] at hpt; cases hpt
+    | ok p1 =>
+      obtain ⟨a1, b1, rfl⟩ := list_len2 p1 (l0 p1 h0)
+      obtain ⟨n1, l1, g1⟩ := axisStep_two ae axis a1 b1 1 (by omega) hl
+      cases h1 : axisStep ae axis [a1, b1] 1 with
+      | error e =>
+        refine ⟨?_, ?_, ?_⟩
+        · intro f hf; simp [adjustAxis, h0, h1] at hf; subst hf; exact n1 f h1
+        · intro pt hpt; simp [adjustAxis, h0, h1] at hpt
+        · intro hleg; obtain ⟨pt, hpt⟩ := g1 hleg; rw [h1] at hpt; cases hpt
+      | ok p2 =>
+        obtain ⟨a2, b2, rfl⟩ := list_len2 p2 (l1 p2 h1)
+        obtain ⟨n2, l2, g2⟩ := axisStep_two ae axis a2 b2 2 (by omega) hl
+        refine ⟨?_, ?_, ?_⟩
+        · intro f; simp only [adjustAxis, h0, h1]; exact n2 f
+        · intro pt; simp only [adjustAxis, h0, h1]; exact l2 pt
+        · intro hleg; simp only [adjustAxis, h0, h1]; exact g2 hleg
+  obtain ⟨k1, k2, k3⟩ := key
+  refine ⟨k1, ?_, ?_⟩
+  · intro f
+    unfold axisPart
+    by_cases he : axis = enu
+    · simp [he]
+    · simp only [he, if_false]
+      cases ha : adjustAxis ae axis denorm [x, y] with
+      | error e => intro hf; simp at hf; subst hf; exact k1 f ha
+      | ok pt => obtain ⟨a, b, rfl⟩ := list_len2 pt (k2 pt ha); simp
+  · intro hleg
+    unfold axisPart
+    by_cases he : axis = enu
+    · exact ⟨x, y, by simp [he]⟩
+    · simp only [he, if_false]
+      obtain ⟨pt, hpt⟩ := k3 hleg
+      obtain ⟨a, b, rfl⟩ := list_len2 pt (k2 pt hpt)
+      exact ⟨a, b, by simp [hpt]⟩
+
+/-- What fix 53df906 repaired, on the model of the snapshot's loop: for a source (denorm = false) the
+third iteration read `point[2]` of the 2-vector, for every axis string. -/
+theorem snapshot_axis_index_fault (ae : Err) (axis : List Char) (x y : F) :
+    axisStepSnapshot ae axis false [x, y] 2 = .error (.panic .index) ∧
+    axisStep ae axis [x, y] 2 = .ok [x, y] := by
+  simp [axisStepSnapshot, axisStep]
+
+/-! ### the closure never panics -/
+
+/-- well-formed heap: three-letter axis strings (as `projString`/`DeriveConstants` produce) and the
+registry's WGS84 cell is what its name says -/
+def WF (h : Heap F P) (wgs : Nat) : Prop :=
+  (∀ i, (h i).axis.length = 3) ∧ (h wgs).wgsCode = true ∧ (h wgs).dtype = 4
+
+theorem body_no_panic (c : Core F P Err) (s d : Nat) (S D : SR F P) (x y : F)
+    (hS : S.axis.length = 3) (hD : D.axis.length = 3) (f : Fault) : body c s d S D x y ≠ .panic f := by
+  have hs := (C10_no_index_fault c.axisErr S.axis false x y hS).2.1
+  have hd := fun (x y : F) => (C10_no_index_fault c.axisErr D.axis true x y hD).2.1
+  unfold body
+  cases h1 : axisPart c.axisErr S.axis false x y with
+  | error e =>
+    cases e with
+    | err e => simp [failToRes]
+    | panic g => exact absurd h1 (hs g)
+  | ok p =>
+    obtain ⟨x1, y1⟩ := p
+    simp only []
+    split
+    · simp
+    · split
+      · simp
+      · split
+        · simp
+        · rename_i x3 y3 _
+          cases h2 : axisPart c.axisErr D.axis true x3 y3 with
+          | error e =>
+            cases e with
+            | err e => simp [failToRes]
+            | panic g => exact absurd h2 (hd _ _ g)
+          | ok q => obtain ⟨a, b⟩ := q; simp
+
+theorem stepNoHop_no_panic (c : Core F P Err) (h : Heap F P) (s d : Nat) (x y : F)
+    (hax : ∀ i, (h i).axis.length = 3) (f : Fault) : (stepNoHop c h s d x y).2 ≠ .panic f := by
+  have ax1 : ∀ i j, ((initAt c h i).1 j).axis.length = 3 := by
+    intro i j; simp only [initAt_fst, Heap.set, inited]; by_cases hj : j = i <;> simp [hj, hax]
+  have ax2 : ∀ i k j, ((initAt c (initAt c h i).1 k).1 j).axis.length = 3 := by
+    intro i k j; simp only [initAt_fst, Heap.set, inited]
+    by_cases hj : j = k <;> simp [hj, ax1]
+    · have := ax1 i k; simpa [initAt_fst, Heap.set, inited] using this
+    · have := ax1 i j; simpa [initAt_fst, Heap.set, inited] using this
+  unfold stepNoHop
+  simp only []
+  cases (initAt c h s).2 with
+  | some e => simp
+  | none =>
+    simp only []
+    cases (initAt c (initAt c h s).1 d).2 with
+    | some e => simp
+    | none => exact body_no_panic c s d _ _ x y (ax2 s d s) (ax2 s d d) f
+
+theorem stepNoHop_axis (c : Core F P Err) (h : Heap F P) (s d : Nat) (x y : F)
+    (hax : ∀ i, (h i).axis.length = 3) : ∀ i, ((stepNoHop c h s d x y).1 i).axis.length = 3 := by
+  have ax1 : ∀ i j, ((initAt c h i).1 j).axis.length = 3 := by
+    intro i j; simp only [initAt_fst, Heap.set, inited]; by_cases hj : j = i <;> simp [hj, hax]
+  have ax2 : ∀ i k j, ((initAt c (initAt c h i).1 k).1 j).axis.length = 3 := by
+    intro i k j; simp only [initAt_fst, Heap.set, inited]
+    by_cases hj : j = k <;> simp [hj, ax1]
+    · have := ax1 i k; simpa [initAt_fst, Heap.set, inited] using this
+    · have := ax1 i j; simpa [initAt_fst, Heap.set, inited] using this
+  intro i
+  unfold stepNoHop
+  simp only []
+  cases (initAt c h s).2 with
+  | some e => exact ax1 s i
+  | none =>
+    simp only []
+    cases (initAt c (initAt c h s).1 d).2 with
+    | some e => exact ax2 s d i
+    | none => exact ax2 s d i
+
+/-- **C10_no_panic** (the transformer side of "never panics"; needs the repaired `adjust_axis`): on a
+well-formed heap no call of any transformer panics — no index fault for any axis order of source or
+dest, no runaway recursion through the WGS84 hop. -/
+theorem C10_no_panic (c : Core F P Err) (wgs : Nat) (h : Heap F P) (tr : Tr) (x y : F) (hw : WF h wgs)
+    (f : Fault) : (step c wgs h tr x y).2.2 ≠ .panic f := by
+  obtain ⟨hax, hc, hd⟩ := hw
+  have hn : needsHop h tr.src wgs = false := by simp [needsHop, notWGS, hc, hd]
+  unfold step
+  by_cases hh : needsHop h tr.src tr.dst = true
+  · simp only [hh, if_true, hn, Bool.false_eq_true, if_false]
+    have n1 := stepNoHop_no_panic c h tr.src wgs x y hax
+    cases hres : (stepNoHop c h tr.src wgs x y).2 with
+    | ok a b =>
+      simp only []
+      exact stepNoHop_no_panic c _ wgs tr.dst a b (stepNoHop_axis c h tr.src wgs x y hax) f
+    | err e => simp
+    | panic g => exact absurd hres (n1 g)
+  · simp only [hh, Bool.false_eq_true, if_false]
+    exact stepNoHop_no_panic c h tr.src tr.dst x y hax f
+
+/-! ### non-vacuity: a concrete instance (also the witness that the snapshot's closure was not pure) -/
+
+namespace Witness
+
+instance : FOps Int where
+  mul a b := a * b
+  add a b := a + b
+  sub a b := a - b
+  div a b := a / b
+  neg a := -a
+  isNaN _ := false
+  deg2rad := 1
+  r2d := 1
+
+/-- identity projections; the datum step between cells `i` and `j` adds `10 i + j` to x -/
+def core : Core Int Bool String where
+  init _ := (true, none)
+  inv _ a b := .ok (a, b)
+  fwd _ a b := .ok (a, b)
+  dt i j a b := .ok (a + 10 * i + j, b)
+  axisErr := "axis"
+
+/-- cell 0, 1: 3-parameter datums; cell 2: the WGS84 registry entry -/
+def heap : Heap Int Bool := fun i =>
+  { longlat := true, axis := enu, toMeter := 1, fromGreenwich := 0, dtype := if i = 2 then 4 else 1,
+    wgsCode := i = 2, p := false }
+
+def pool : Nat → Tr := fun _ => ⟨0, 1⟩
+
+example : CoreOK core := fun _ => rfl
+example : WF heap 2 := ⟨fun _ => rfl, rfl, rfl⟩
+example : needsHop heap 0 1 = true := by decide
+
+/-- fixed code: the same call twice gives the same answer … -/
+example : (runHist core 2 { heap := heap, pool := pool } [(0, 5, 7), (0, 5, 7)]).2 = [.ok 28 7, .ok 28 7] := by
+  decide
+
+/-- … the snapshot's closure answered from WGS84 the second time. -/
+example :
+    let r1 := stepSnapshot core 2 heap (pool 0) 5 7
+    let r2 := stepSnapshot core 2 r1.1 r1.2.1 5 7
+    (r1.2.2, r2.2.2) = (.ok 28 7, .ok 26 7) := by
+  decide
+
+end Witness
+
+end Transformer
+
 end GeomV.C10
